@@ -128,11 +128,13 @@ func trunc(b []byte, n int) []byte {
 func TestGeneratedPrograms(t *testing.T) {
 	harness.Check(t, "programs", 40000, 1500000, func(rt *rapid.T) {
 		v := rapid.SampledFrom(px.KeyVersions).Draw(rt, "version")
-		c := progs.Draw(rt, v, progs.Options(v), 1, 4)
+		o := progs.Options(v)
+		o.LeadHTML = progs.Padding(rt)
+		c := progs.Draw(rt, v, o, 1, 4)
 		kind := rapid.SampledFrom([]phpgen.PolicyKind{phpgen.PolicyMinimal, phpgen.PolicySpace, phpgen.PolicyWhitespace, phpgen.PolicyFull, phpgen.PolicyFull}).Draw(rt, "policy")
 		excl := 0
 		pol := progs.Policy(rt, kind, &excl)
-		pol.Shebang = !harness.FindingOpen("printer-shebang-open-tag") && rapid.IntRange(0, 9).Draw(rt, "shebang") == 0
+		pol.Shebang = len(o.LeadHTML) == 0 && !harness.FindingOpen("printer-shebang-open-tag") && rapid.IntRange(0, 9).Draw(rt, "shebang") == 0
 		lay := c.G.Render(c.Root, pol)
 		src := lay.Src
 		harness.Class("src=generated")
